@@ -12,6 +12,8 @@ let kv_of hdr key dflt =
 
 let render_opt v = match v with None -> "notfound" | Some b -> "v:" ^ render b
 
+let compacted = ref false
+
 let layer_lines pr (s : st) =
   let mem kind (m : memtable) =
     let es = mt_iter_entries m in
@@ -21,6 +23,7 @@ let layer_lines pr (s : st) =
               (match e.mkind with KDel -> "del" | KVal -> "val") (render e.mval))) es in
   mem "active" s.active;
   Stdlib.List.iter (mem "immutable") (Stdlib.List.rev s.imms);
+  if not !compacted then
   Stdlib.List.iter (fun (t : sst) ->
       pr (Printf.sprintf "L sst n=%d" (Stdlib.List.length t.s_entries));
       Stdlib.List.iter (fun (e : sentry) ->
@@ -42,6 +45,7 @@ let run (id : string) (hdr : string list) (lines : string list list) (out : stri
   if kv_of hdr "mode" "seq" = "sched" then () else
   let c = { c_memsize = n_of_string (kv_of hdr "memsize" "4096"); c_maxmem = n_of_string (kv_of hdr "maxmem" "1000") } in
   let s = ref (init c) in
+  compacted := false;
   let pr x = out (id ^ " " ^ x) in
   let wr (s', r) = s := s';
     (match r with
@@ -60,6 +64,7 @@ let run (id : string) (hdr : string list) (lines : string list list) (out : stri
     | ["flush"] :: r -> s := flush !s; go r
     | ["reopen"] :: r -> s := reopen !s;
       if !s.lost_log then pr "X lostlog" else pr ("O last=" ^ n_to_string !s.last_seq); go r
+    | ("compact" :: _) :: r -> compacted := true; go r
     | ["layers"] :: r -> layer_lines pr !s; go r
     | l :: _ -> failwith ("C01: bad line: " ^ Stdlib.String.concat " " l) in
   go lines;
